@@ -389,6 +389,59 @@ func TestC15(t *testing.T) {
 		panics = append(panics, w0.panics...)
 	}
 
+	// ---- configuration fault of the first generation: auction params with cusp 1.0 when the first vault is liquidated ⇒ a FLAT
+	// Dutch auction (end price = initial price; `AddAuctionParams` validates nothing), params set back, a second, healthy
+	// auction behind it. `RestartDutchAuctions` divides by (initial − end) (x/auction/keeper/dutch.go:495-497): the flat auction's
+	// unit must fail INSIDE its wrapper, the healthy one must be processed, no panic may escape (seed s116) ---------------------
+	{
+		w := c15NewWorld(t, tr, 12)
+		w.setupV1(2)
+		ap, _ := w.app.AuctionKeeper.GetAuctionParams(w.ctx, 1)
+		flat := ap
+		flat.Cusp = sdk.MustNewDecFromStr("1.0")
+		w.app.AuctionKeeper.SetAuctionParams(w.ctx, flat)
+		w.app.LiquidationKeeper.SetParams(w.ctx, liqv1types.Params{LiquidationBatchSize: 1})
+		w.advance(6, 1)
+		w.setPrice(1, 1000000, true)
+		w.apply("liquidation.BeginBlocker") // vault 1 ⇒ flat auction
+		w.app.AuctionKeeper.SetAuctionParams(w.ctx, ap)
+		for i := 0; i < 3 && len(w.app.AuctionKeeper.GetDutchAuctions(w.ctx, 1)) < 2; i++ {
+			w.advance(6, 1)
+			w.apply("liquidation.BeginBlocker") // vault 2 ⇒ healthy auction
+		}
+		as := w.app.AuctionKeeper.GetDutchAuctions(w.ctx, 1)
+		for _, a := range as {
+			if a.OutflowTokenInitialPrice.Equal(a.OutflowTokenEndPrice) {
+				tr.Count("fixture:cfg.flat-auction")
+			} else {
+				tr.Count("fixture:cfg.healthy-auction")
+			}
+		}
+		if len(as) != 2 || !as[0].OutflowTokenInitialPrice.Equal(as[0].OutflowTokenEndPrice) {
+			t.Errorf("c15 cfg world: %d auctions, first flat = %v", len(as), len(as) > 0 && as[0].OutflowTokenInitialPrice.Equal(as[0].OutflowTokenEndPrice))
+		}
+		w.advance(100, 15)
+		cfg := []c15Blocker{c15Find("auction.BeginBlocker")}
+		w.envRun("cfg.flat-then-healthy", w.ctx, "1")
+		w.campaign("cfg.flat-then-healthy", w.ctx, cfg, ks)
+		// the healthy auction behind the flat one must have been updated by the real blocker
+		{
+			r := w.run(w.ctx, cfg[0], 0, 0, false)
+			if r.returned {
+				after := w.app.AuctionKeeper.GetDutchAuctions(r.ctx, 1)
+				if len(after) == 2 && !after[1].OutflowTokenCurrentPrice.Equal(as[1].OutflowTokenCurrentPrice) {
+					tr.Count("cfg:healthy-auction-updated-behind-flat")
+				} else {
+					tr.Count("cfg:healthy-auction-NOT-updated")
+				}
+			}
+		}
+		w.advance(301, 40)
+		w.envRun("cfg.flat-then-healthy.expired", w.ctx, "1")
+		w.campaign("cfg.flat-then-healthy.expired", w.ctx, cfg, ks)
+		panics = append(panics, w.panics...)
+	}
+
 	// ---- per-app granularity of the liquidity hooks: multi-app worlds, natural poison and injected faults per app ---------
 	{
 		w0 := &c15World{t: t, tr: tr}
